@@ -164,7 +164,7 @@ class Metadata(object):
                 else other.per_occurrence_limit
             ),
             tuple(sorted(other.details.items())),
-            tuple(sorted(self.loss_details.items())),
+            tuple(sorted(other.loss_details.items())),
         )
 
 
